@@ -465,8 +465,8 @@ func c07Run(c *Ctx) {
 					for a2 := 0; a2 < 8; a2++ {
 						for s2 := 0; s2 < c07SlotVariants; s2++ {
 							for pi, pp := range placePairs {
-								if !c.Thorough() && pi >= 3 && (a1+s1+a2+s2)%3 != 0 {
-									continue
+								if !c.Thorough() && (pi >= 3 || (k == 2 && pi >= 1)) && (a1+s1+a2+s2)%3 != 0 {
+									continue // quick tier: the later place pairs (for two-item components all but the first) take every third combination
 								}
 								if !do(c07Case{X: x, Uses: []c07Use{{0, a1, s1, pp[0]}, {0, a2, s2, pp[1]}}, Data: (a1 + s2) % 3}) {
 									return false
